@@ -233,4 +233,38 @@ theorem setsInv_reach {s : State} (h : Reach s) : SetsInv s := by
   | init => exact setsInv_init
   | step _ hs ih => exact setsInv_step ih hs
 
+
+theorem reach_run {s : State} (h : Reach s) : ∀ {as : List Act} {s' : State}, run s as = some s' → Reach s' := by
+  intro as
+  induction as generalizing s with
+  | nil => intro s' hr; simp only [run, Option.some.injEq] at hr; subst hr; exact h
+  | cons a as ih =>
+    intro s' hr
+    simp only [run] at hr
+    split at hr
+    · rename_i s1 o heq
+      exact ih (Reach.step h heq) hr
+    · simp at hr
+
+theorem filter_length_le_one_of_nodup_map {α β : Type} [DecidableEq β] (f : α → β) (b : β) :
+    ∀ {l : List α}, (l.map f).Nodup → (l.filter (fun x => f x = b)).length ≤ 1 := by
+  intro l
+  induction l with
+  | nil => intro _; simp
+  | cons x xs ih =>
+    intro h
+    simp only [List.map_cons, List.nodup_cons] at h
+    simp only [List.filter_cons]
+    split
+    · rename_i hx
+      simp only [decide_eq_true_eq] at hx
+      have : xs.filter (fun x => f x = b) = [] := by
+        rw [List.filter_eq_nil_iff]
+        intro y hy
+        simp only [decide_eq_true_eq]
+        intro hyb
+        exact h.1 (by rw [hx, ← hyb]; exact List.mem_map_of_mem hy)
+      simp [this]
+    · exact ih h.2
+
 end QmiModel.PubSub
